@@ -148,6 +148,7 @@ func genHistoryForced(s *Stream, o *GenOpts, kinds []unitKind) *History {
 		t.ID = uint64(200 + i)
 		h.Tables = append(h.Tables, t)
 	}
+	oddIdentifiers(s, h.Tables)
 	b := &builder{h: h, s: s, o: o, unit: -1}
 	b.startFile(fileName(0, s), 0)
 	for _, k := range kinds {
@@ -427,8 +428,10 @@ func fillFault(s *Stream, h *History, kind stopKind, at int, p *AttemptPlan) {
 		p.Stream = StreamPlan{Kind: kind, AtPacket: at, ThenFIN: s.Chance(1, 2)}
 	case stopInvalidEvent:
 		p.Stream = StreamPlan{Kind: kind, AtPacket: at, Invalid: invalidPayload(s, h)}
+		secondGarbage(s, &p.Stream)
 	case stopUnsupportedEvent:
 		p.Stream = StreamPlan{Kind: kind, AtPacket: at, BadType: []byte{evRowsQuery, evIntVar, evRand}[s.N(3)]}
+		secondGarbage(s, &p.Stream)
 	case stopCancel:
 		p.CancelAfter = at
 		p.CancelWhen = s.N(6)
@@ -443,6 +446,16 @@ func fillFault(s *Stream, h *History, kind stopKind, at int, p *AttemptPlan) {
 		p.HandshakeCut = s.N(90)
 	}
 	p.BlockedAtStop = s.Chance(1, 3)
+}
+
+// secondGarbage: a bad connection rarely sends one bad packet. A third of the
+// injected packets are followed at once by a second malformed one that is too
+// short to hold a header; it is in the reader's hands when the first is rejected.
+func secondGarbage(s *Stream, sp *StreamPlan) {
+	if s.Chance(1, 3) {
+		sp.Second = true
+		sp.Invalid2 = s.Bytes(s.N(19))
+	}
 }
 
 // packetCount returns how many packets the master would send for a start position.
